@@ -28,7 +28,9 @@ RULE = ('random netlists (1-4 inputs, 1-7 cells of NANGATE/SAED32/SAED90 with 1-
         '{strip_forks} x c_caps 16/32 x three lanes with the three data sets x random multi-transition stimuli: real '
         'WaveSim(c, delays=df.iopaths(c, tlib) + df.interconnects(c, tlib)) against the composition of the models (driver sdfwave: '
         'text -> grammar model -> block list -> sdfDelay -> simWave over the op rows of the SimOps model): delay array cell by cell, '
-        'waveform in the region of every output slot and every written signal; mismatch = broken tie')
+        'waveform in the region of every output slot and every written signal; every 8th file has no block without INSTANCE name: '
+        'the real df.interconnects() raises TypeError and the model must answer raise:interconnects (sdfDelay = none) — an exception of '
+        'the two annotation calls agrees with that token only, an exception anywhere else never; mismatch = broken tie')
 
 TLIBS = ['NANGATE', 'SAED32', 'SAED90']
 
@@ -255,9 +257,10 @@ def parse_circuit(case):
 
 
 # ---------------------------------------------------------------------------------------------- SDF generator
-def gen_case(rng, kind='oracle', scale_blocks=1.0, wave=False):
+def gen_case(rng, kind='oracle', scale_blocks=1.0, wave=False, notop=False):
     """kind 'oracle': at most one entry per array coordinate; 'overlap': anything goes (model-vs-code only);
-    wave: cells WaveSim schedules, values >= 0 on the 1/8 grid, always a top-level block (clause sdf-wave)"""
+    wave: cells WaveSim schedules, values >= 0 on the 1/8 grid, always a top-level block (clause sdf-wave) unless
+    notop: no block without INSTANCE name at all (interconnects() raises; the model answers `none`)"""
     tname = rng.choice(TLIBS)
     nl = gen_netlist(rng, tname, cat=wave_catalog(tname)) if wave else gen_netlist(rng, tname)
     bf = rng.random() < 0.5
@@ -323,6 +326,7 @@ def gen_case(rng, kind='oracle', scale_blocks=1.0, wave=False):
     top_parts = split_parts(ic_entries, p_rep) if (ic_entries or rng.random() < 0.7) else []
     if kind == 'oracle' and not top_parts and rng.random() < 0.9: top_parts = [[]]
     if wave and not top_parts: top_parts = [[]]
+    if notop: top_parts = []
     def pin_txt(d):
         return sdf_escape(rng, d[1]) if d[0] == 'port' else sdf_escape(rng, d[1]) + '/' + d[2]
     for part in top_parts:
@@ -884,11 +888,52 @@ def eval_wave_case(case):
     from kyupy import sdf
     from . import wavecorr as wc, simcorr, circ
     info = {}
+    bad = []
     c = parse_circuit(case)
     tlib = get_tlib(case['tlib'])
+    L = len(c.lines)
     with quiet():
-        df = common.after_failed_parse(sdf.parse, case['sdf'])
-        delays = df.iopaths(c, tlib) + df.interconnects(c, tlib)
+        df = common.after_failed_parse(sdf.parse, case['sdf'])   # an exception of sdf.parse is NOT tolerated (propagates: broken tie)
+    # ---- the two annotation calls of `df.iopaths(c, tlib) + df.interconnects(c, tlib)`, left to right.  A Python exception HERE, and
+    #      only here, is the counterpart of the model's `sdfDelay = none` / guard token (Model/SdfWave.lean, driver `sdfwave`)
+    real_exc = None
+    with quiet():
+        try:
+            delays = df.iopaths(c, tlib)
+        except Exception as ex:
+            real_exc = ('iopaths', ex)
+        if real_exc is None:
+            try:
+                delays = delays + df.interconnects(c, tlib)
+            except Exception as ex:
+                real_exc = ('interconnects', ex)
+    # ---- the two tables READ OFF THE NETLIST by the model (netPinLine / netIcLine over the canonical dump, the node names and
+    #      tlib.pin_index) against the tables exported from the real circuit by structural search; the composition uses the model's
+    pins, ics = tables(case, c)
+    pidx = ';'.join(f'{pct(k)}:{pct(pn)}:{int(v[0])}' for k in sorted(set(g['kind'] for g in case['gates']))
+                    for pn, v in tlib.cells[k][1].items()) or '~'
+    pq = ';'.join(f"{pct(g['inst'])}:{pct(pn)}" for g in case['gates'] for pn in g['ins']) or '~'
+    iq = ';'.join(f"{pct(drv[1])}:{'~' if drv[0] == 'port' else pct(drv[2])}:{pct(dst[1])}:{'~' if dst[0] == 'port' else pct(dst[2])}"
+                  for sig, drv, dst in case['pairs']) or '~'
+    tabs = common.run_driver([f"sdftabs {circ.dump_names(c)} {circ.dump_net(c).replace(' ', '')} {pidx} {pq} {iq}"])[0]
+    if tabs != f'{pins} # {ics}':
+        bad.append(('pin / fork tables read off the netlist (netPinLine, netIcLine)', f'{pins} # {ics}'[:300], tabs[:300]))
+        return bad, info
+    pins, ics = tabs.split(' # ')
+    if real_exc is not None:
+        # the real expression raises: no array, no simulator.  The model must answer its error token for exactly this exit:
+        #   TypeError in interconnects() (`for .. in None`: no block without INSTANCE name)  <->  raise:interconnects (sdfDelay = none)
+        #   ValueError in interconnects() (tuple unpacking of a name with two '/')            <->  raise:slash (guard slashOK)
+        # every other exception (and every exception in iopaths(), which is total in the model) has no counterpart: mismatch
+        call, ex = real_exc
+        ans = common.run_driver([f"sdfwave {case['mode']} {L} {pct(case['sdf'])} {pins} {ics} ~ 4 ~"])[0]
+        want = {('interconnects', 'TypeError'): 'raise:interconnects', ('interconnects', 'ValueError'): 'raise:slash'}.get(
+            (call, type(ex).__name__))
+        if want == 'raise:interconnects' and has_top(case): want = None   # a TypeError with a top-level block is something else
+        info['real_raise'] = f'{call}:{type(ex).__name__}'
+        if want is None or ans != want:
+            bad.append((f'{call}() raises {type(ex).__name__}: {ex}'[:200], f'raise in {call}()', ans[:120]))
+        return bad, info
     sims, strip, caps = 3, case['strip'], case['caps']
     ws = wc.make_sim(c, delays, sims, c_caps=caps, strip=strip)
     ws.simctl_int[1] = 1                      # data set per lane
@@ -897,12 +942,10 @@ def eval_wave_case(case):
     i, t, f = wc.rand_stim(srng, ws.s_len, sims, tmax=30)
     wc.assign(ws, i, t, f)
     wc.overwrite_inputs(ws, srng, p=0.6, tmax=30)
-    L = len(c.lines)
     # ---- model: op rows / tables of the SimOps model, value sources through the model's stems
     order = [n.index for n in c.topological_order()]
     mans = common.run_driver(simcorr.model_lines(c, strip, False, str(caps), 4, order))[1]
     real_tabs = simcorr.fmt_real(ws)
-    bad = []
     if real_tabs != mans:
         bad.append(('SimOps model tables (ops ; level_starts ; c_locs ; c_caps ; c_len)', real_tabs[:300], mans[:300]))
         return bad, info
@@ -918,24 +961,11 @@ def eval_wave_case(case):
             idx = ws.ppi_offset + int(s_loc)
             st.append(f'{idx}={read_wv(cc0, int(ws.c_locs[idx]), int(ws.c_caps[idx]), sim)}')
         lanes.append(f"{case['datasets'][sim]}@{'|'.join(st) or '~'}")
-    pins, ics = tables(case, c)
-    # ---- the two tables READ OFF THE NETLIST by the model (netPinLine / netIcLine over the canonical dump, the node names and
-    #      tlib.pin_index) against the tables exported from the real circuit by structural search; the composition uses the model's
-    pidx = ';'.join(f'{pct(k)}:{pct(pn)}:{int(v[0])}' for k in sorted(set(g['kind'] for g in case['gates']))
-                    for pn, v in tlib.cells[k][1].items()) or '~'
-    pq = ';'.join(f"{pct(g['inst'])}:{pct(pn)}" for g in case['gates'] for pn in g['ins']) or '~'
-    iq = ';'.join(f"{pct(drv[1])}:{'~' if drv[0] == 'port' else pct(drv[2])}:{pct(dst[1])}:{'~' if dst[0] == 'port' else pct(dst[2])}"
-                  for sig, drv, dst in case['pairs']) or '~'
-    tabs = common.run_driver([f"sdftabs {circ.dump_names(c)} {circ.dump_net(c).replace(' ', '')} {pidx} {pq} {iq}"])[0]
-    if tabs != f'{pins} # {ics}':
-        bad.append(('pin / fork tables read off the netlist (netPinLine, netIcLine)', f'{pins} # {ics}'[:300], tabs[:300]))
-        return bad, info
-    pins, ics = tabs.split(' # ')
     with common.quiet():
         ws.c_prop()
     ans = common.run_driver([f"sdfwave {case['mode']} {L} {pct(case['sdf'])} {pins} {ics} {ops} {mf[3]} {'/'.join(lanes)}"])[0]
-    if ' # ' not in ans:
-        bad.append(('driver sdfwave', 'arrays and waveforms', ans[:300]))
+    if ' # ' not in ans:   # the real calls returned arrays: an error token of the model (`raise:..`, `noparse`) is a mismatch
+        bad.append(('driver sdfwave', 'arrays and waveforms (iopaths() + interconnects() did not raise)', ans[:300]))
         return bad, info
     arr_s, lanes_s = ans.split(' # ', 1)
     # ---- (i) the delay array, all three data sets
@@ -972,8 +1002,8 @@ def eval_wave_case(case):
     return bad, info
 
 
-def gen_wave_case(rng, mode):
-    case = gen_case(rng, rng.choice(['oracle', 'oracle', 'overlap']), wave=True)
+def gen_wave_case(rng, mode, notop=False):
+    case = gen_case(rng, rng.choice(['oracle', 'oracle', 'overlap']), wave=True, notop=notop)
     case.update({'mode': mode, 'strip': rng.random() < 0.4, 'caps': rng.choice([16, 16, 32]), 'sseed': rng.randint(0, 2 ** 31 - 1),
                  'datasets': rng.choice([[0, 1, 2], [0, 1, 2], [2, 0, 1], [1, 1, 0]])})
     return case
@@ -982,15 +1012,25 @@ def gen_wave_case(rng, mode):
 def sdf_wave(ck, n, mode):
     """clause sdf-wave: the real timing data path against the composition of the models"""
     for it in range(n):
-        case = gen_wave_case(ck.rng, mode)
+        case = gen_wave_case(ck.rng, mode, notop=(it % 8 == 5))   # every 8th case: a file without top-level block
         ents, tags = describe(case)
         try:
             bad, info = eval_wave_case(case)
         except Exception as ex:
-            ck.hist['sdf-wave:skipped:' + type(ex).__name__] += 1
-            ck.case(key=('sdf-wave', case['verilog'], case['sdf']), nontrivial=False, tag=['stream:sdf-wave', 'sdf-wave:skipped'])
-            if not isinstance(ex, (IndexError, KeyError, AssertionError, TypeError)):   # raising inputs of the real annotation loops are outside
-                ck.broken_tie('timing data path (sdf-wave)', f'{type(ex).__name__}: {ex}'[:300], inp=case)
+            # eval_wave_case catches the exceptions of df.iopaths() / df.interconnects() itself and compares them with the model's
+            # error token; an exception anywhere else (sdf.parse, WaveSim, the driver, the harness) is never "agreement"
+            ck.hist['sdf-wave:error:' + type(ex).__name__] += 1
+            ck.case(key=('sdf-wave', case['verilog'], case['sdf']), nontrivial=False, tag=['stream:sdf-wave', 'sdf-wave:error'])
+            ck.broken_tie('timing data path (sdf-wave)', f'{type(ex).__name__}: {ex}'[:300], inp=case)
+            continue
+        if 'real_raise' in info:
+            # the real expression raises in one of the two annotation calls; `bad` is empty iff the model answers the matching token
+            ck.case(key=('sdf-wave', case['verilog'], case['bf'], case['sdf'], 'raise'), nontrivial=not bad,
+                    sample={'tlib': case['tlib'], 'branchforks': case['bf'], 'verilog': case['verilog'], 'sdf': case['sdf'][:1200],
+                            'real': info['real_raise']},
+                    tag=['stream:sdf-wave', 'sdf-wave:raise:' + info['real_raise']])
+            for what, real, model in bad[:3]:
+                ck.broken_tie(f'timing data path (sdf-wave): {what}', f'real {real} != model {model}'[:400], inp=case)
             continue
         ck.case(key=('sdf-wave', case['verilog'], case['bf'], case['sdf'], case['strip'], case['sseed']),
                 nontrivial=info.get('nonzero_delays', 0) > 0 and info.get('transitions', 0) > 0,
@@ -1000,6 +1040,9 @@ def sdf_wave(ck, n, mode):
         ck.hist['sdf-wave:compared'] += 1
         for what, real, model in bad[:3]:
             ck.broken_tie(f'timing data path (sdf-wave): {what}', f'real {real} != model {model}'[:400], inp=case)
+    # outcome counts of the clause (the histogram of the evidence keeps the largest classes only)
+    ck.extra['sdf_wave_outcomes'] = {k: v for k, v in ck.hist.items()
+                                     if k == 'sdf-wave:compared' or k.startswith(('sdf-wave:raise:', 'sdf-wave:error:'))}
 
 
 def malformed(ck, mode):
@@ -1104,7 +1147,7 @@ def run(ck):
                     "instance name (theorems none_lost_false_lastWins, lastWins_keeps_last_only), 'merge' = every block kept (none_lost)")
     ck.assumptions += ['grammar/lexer of sdf.py: modelled (Model/SdfText.lean, round-trip theorem) and compared with lark on generated, hand-written and mutated texts; that lark implements the grammar as the model reads it is checked there, not proved',
                        'float(), NumPy fancy assignment and the Verilog reader are exercised through generated texts, not modelled',
-                       'timing data path (Props/C14Wave.lean): theorems about the composition of the models (text -> block list -> sdfDelay -> simopsMap -> waveforms on the memory layout); tie = clause sdf-wave (delay array and the waveform in the region of every output slot of the real WaveSim == driver sdfwave), plus the ties of C03/C08 for _wave_eval and SimOps',
+                       'timing data path (Props/C14Wave.lean): theorems about the composition of the models (text -> block list -> sdfDelay -> simopsMap -> waveforms on the memory layout); tie = clause sdf-wave (delay array and the waveform in the region of every output slot of the real WaveSim == driver sdfwave; df.interconnects() raising TypeError on a file without top-level block == model answer none, token raise:interconnects), plus the ties of C03/C08 for _wave_eval and SimOps',
                        'the look-ups are compared twice: through two tables (line feeding a pin; fork line between two pins) exported from the '
                        'real Circuit by structural search (reader/reader_pin, fork names), independent of sdf.py, and through the modelled '
                        'look-ups pinLook/icLook (Model/SdfCirc.lean) fed with the circuit dump and tlib.cells, per entry (line index / warn / raise)',
